@@ -32,12 +32,12 @@ class PooledDomain(Domain):
     async_enabled = False
     subscript_may_raise = False
     unpack_may_raise = False
-    global_keys = ("#brackets", "#calls", "#escapes", "#param_uses", "#destroys", "#raw")
+    global_keys = ("#brackets", "#calls", "#escapes", "#param_uses", "#destroys", "#raw", "#hold", "#back", "#late_use")
 
     def __init__(self, prog, fn, ignore_exc, outcome):
         super().__init__(prog, fn)
         self.ignore_exc = ignore_exc
-        self.outcome = outcome  # 'ok' | 'raise'
+        self.outcome = outcome  # 'ok' | 'raise' | 'interrupt' (the delegate call is aborted by a BaseException; analyse_holds only)
 
     # ---- facts -------------------------------------------------------------------------
     def _add(self, state, key, item):
@@ -105,10 +105,20 @@ class PooledDomain(Domain):
             if attr == "get_and_release":
                 dof = kwargs.get("destroy_on_fail", args[0] if args else Const(False))
                 return [("ok", Bracket(dof), state)]
+            # a hand-made bracket: `client = client_pool.get()` ... `client_pool.release(client)` / `.destroy(client)`.
+            # "#hold" is the typestate of the checked-out client (held -> back), "#back" the calls that gave it back
+            if attr in ("destroy", "release") and args and args[0] == PC and state.get("#hold", None) is not None:
+                st = state.set("#hold", "back").set("#back", state.get("#back", ()) + (attr,))
+                return [("ok", NONE, st)]
             if attr == "destroy" and args and args[0] == PC:
                 return [("ok", NONE, self._add(state, "destroys", node.lineno))]
-            if attr in ("get", "release"):
-                return [("ok", PC if attr == "get" else NONE, self._add(state, "raw", "client_pool.%s()" % attr))]
+            if attr == "get":
+                st = self._add(state, "raw", "client_pool.get()")
+                if state.get("#hold", None) == "held":
+                    st = self._add(st, "late_use", "a second client_pool.get() while the first client is still checked out (line %d)" % node.lineno)
+                return [("ok", PC, st.set("#hold", "held"))]
+            if attr == "release":
+                return [("ok", NONE, self._add(state, "raw", "client_pool.release()"))]
             if attr == "clear":
                 return [("ok", NONE, state)]
             return [("ok", TOP, state)]
@@ -133,9 +143,11 @@ class PooledDomain(Domain):
                 kws.append((k if not k.startswith("**") else "**", ("KW", v.name) if isinstance(v, KwArgs) else _h(v)))
             n = len(state.get("#calls", ())) + 1
             st = self._add(state, "calls", (fval.attr, tuple(flat), tuple(kws)))
+            if state.get("#hold", None) == "back":
+                st = self._add(st, "late_use", "client.%s is called after the client was given back to the pool (line %d)" % (_attr(fval.attr), node.lineno))
             if self.outcome == "ok":
                 return [("ok", ResultOf(n), st)]
-            return [("exc", Exc(ORD, None, node.lineno), st)]
+            return [("exc", Exc(ASYNC if self.outcome == "interrupt" else ORD, None, node.lineno), st)]
         if name.startswith("self._") and name.count(".") == 1 and self.prog is not None:
             m = self.prog.cls("PooledClient").methods.get(name[5:])
             if m is not None:
@@ -190,6 +202,52 @@ def analyse(prog):
         out[name] = runs
     prog.__dict__["_pooled_runs"] = out
     return out
+
+
+def analyse_holds(prog):
+    """Hand-made brackets.  -> {method name: [Run, ...]} for the public methods of PooledClient that check a client out
+    with client_pool.get() themselves: the runs of `analyse` plus, per ignore_exc, one in which the delegate call is
+    aborted by a BaseException (outcome 'interrupt').  What the rules read off each run: state['#hold'] at the exit
+    ('held' = the client is still checked out: its slot is lost), state['#back'] (the calls that gave it back) and
+    state['#late_use'] (calls on the client after it was given back, a second get)."""
+    cache = prog.__dict__.get("_pooled_holds")
+    if cache is not None:
+        return cache
+    out = {}
+    pooled = prog.cls("PooledClient")
+    for name, runs in analyse(prog).items():
+        if not any(r.state.get("#hold", None) is not None for r in runs):
+            continue
+        f = pooled.methods[name]
+        runs = list(runs)
+        for ign in (True, False):
+            dom = PooledDomain(prog, f, ign, "interrupt")
+            env = {}
+            for p in f.params:
+                if p.name != "self":
+                    env[p.name] = StarArgs(p.name) if p.kind == "vararg" else (KwArgs(p.name) if p.kind == "kwarg" else P(p.name))
+            outs = Interp(dom, f.node, prog).run(Env(env))
+            for kind in ("ret", "exc"):
+                for s_, v, t in outs.of(kind):
+                    runs.append(Run(f, ign, "interrupt", kind, v, s_, t))
+        out[name] = runs
+    prog.__dict__["_pooled_holds"] = out
+    return out
+
+
+def hold_problems(runs, colours=("ok", "raise", "interrupt")):
+    """-> [(key suffix, message)] for the runs of one hand-made bracket (see analyse_holds)."""
+    out = []
+    for r in runs:
+        if r.outcome not in colours:
+            continue
+        how = {"ok": "the call on the client succeeds", "raise": "the call on the client fails with an ordinary exception", "interrupt": "the call on the client is aborted by a BaseException (KeyboardInterrupt, gevent.Timeout)"}[r.outcome]
+        exit_ = "returns normally" if r.kind == "ret" else "is left by the exception"
+        if r.state.get("#hold", None) == "held":
+            out.append(("client-not-given-back:%s" % r.outcome, "when %s, the method %s without release() or destroy(): the client stays in the pool's used list for ever, and after max_pool_size such calls every get() fails" % (how, exit_)))
+        elif r.outcome != "ok" and "release" in r.state.get("#back", ()) and "destroy" not in r.state.get("#back", ()):
+            out.append(("failed-client-released:%s" % r.outcome, "when %s, the client goes back to the free list with release(): the next caller gets a connection whose exchange failed half way" % how))
+    return list(dict.fromkeys(out))
 
 
 def value_term(v):
@@ -395,13 +453,101 @@ class OptionsDomain(ExactCollectionsMixin, Domain):
         return [("ok", Derived(frozenset(ns)) if ns else TOP, state)]
 
 
-def created_client_options(prog, cname="PooledClient", creator="_create_client"):
+Callback = namedtuple("Callback", "node params kind")
+# node: the Lambda / FunctionDef that runs; params: the names the caller's positional arguments bind to, in order;
+# kind: 'lambda' | 'method' (of the constructing class, self bound) | 'static' | 'function' | 'unbound:<Class>.<method>'
+
+
+def pool_constructions(prog, cname="PooledClient"):
+    """The `ObjectPool(...)` calls of <cname>.__init__ -> [(call node, obj_creator expression, after_remove expression or None)]."""
+    init = prog.method(prog.cls(cname), "__init__")
+    out = []
+    for n in ast.walk(init.node):
+        if isinstance(n, ast.Call) and call_name(n).endswith("ObjectPool"):
+            kw = {k.arg: k.value for k in n.keywords}
+            out.append((n, n.args[0] if n.args else kw.get("obj_creator"), n.args[1] if len(n.args) > 1 else kw.get("after_remove")))
+    return init, out
+
+
+def resolve_callback(prog, cls, expr, fn=None):
+    """The function a callback expression stands for - a lambda, `self._method` (plain or static), `Class.method`
+    (unbound: the first argument is the receiver), a module-level function, or a local variable of `fn` assigned one of
+    these exactly once.  -> Callback, or None when the expression is none of them (functools.partial, a call, ...)."""
+    if isinstance(expr, ast.Lambda):
+        a = expr.args
+        if a.vararg or a.kwarg or a.kwonlyargs:
+            return None
+        return Callback(expr, tuple(x.arg for x in a.posonlyargs + a.args), "lambda")
+    if is_self_attr(expr):
+        m = prog.method(cls, expr.attr, required=False)
+        if m is None:
+            return None
+        names = [p.name for p in m.params if p.kind not in ("vararg", "kwarg")]
+        if any("staticmethod" in d for d in m.decorators):
+            return Callback(m.node, tuple(names), "static")
+        if any("classmethod" in d for d in m.decorators):
+            return None
+        return Callback(m.node, tuple(names[1:]), "method")
+    if isinstance(expr, ast.Attribute) and isinstance(expr.value, ast.Name) and expr.value.id in prog.classes:
+        c = prog.cls(expr.value.id)
+        m = prog.method(c, expr.attr, required=False)
+        if m is None or m.decorators:
+            return None
+        return Callback(m.node, tuple(p.name for p in m.params if p.kind not in ("vararg", "kwarg")), "unbound:%s.%s" % (c.name, expr.attr))
+    if isinstance(expr, ast.Name):
+        mod = cls.module
+        if expr.id in mod.functions:
+            f = mod.functions[expr.id]
+            return Callback(f.node, tuple(p.name for p in f.params if p.kind not in ("vararg", "kwarg")), "function")
+        if fn is not None:
+            defs = [n for n in ast.walk(fn.node) if isinstance(n, ast.Assign) and len(n.targets) == 1 and isinstance(n.targets[0], ast.Name) and n.targets[0].id == expr.id]
+            if len(defs) == 1:
+                return resolve_callback(prog, cls, defs[0].value, None)
+    return None
+
+
+def callback_closure(prog, cls, cb):
+    """The callback's own body plus the bodies of the private methods of its class it calls (transitively).
+    -> [function / lambda nodes]"""
+    seen, todo, out = set(), [cb.node], []
+    while todo:
+        n = todo.pop()
+        if id(n) in seen:
+            continue
+        seen.add(id(n))
+        out.append(n)
+        for c in ast.walk(n):
+            if isinstance(c, ast.Call) and is_self_attr(c.func):
+                m = prog.method(cls, c.func.attr, required=False)
+                if m is not None:
+                    todo.append(m.node)
+    return out
+
+
+def creator_method(prog, cname="PooledClient"):
+    """The method of <cname> that builds the pooled objects: what the pool's obj_creator callback is, or calls."""
+    cls = prog.cls(cname)
+    init, cons = pool_constructions(prog, cname)
+    for call, oc, ar in cons:
+        cb = resolve_callback(prog, cls, oc, init) if oc is not None else None
+        if cb is None:
+            continue
+        if cb.kind == "method":
+            return next(m for m in cls.methods.values() if m.node is cb.node)
+        if cb.kind == "lambda" and isinstance(cb.node.body, ast.Call) and is_self_attr(cb.node.body.func) and not cb.node.body.args and not cb.node.body.keywords:
+            m = prog.method(cls, cb.node.body.func.attr, required=False)
+            if m is not None:
+                return m
+    return None
+
+
+def created_client_options(prog, cname="PooledClient", creator=None):
     """-> list of (positional values, {option name: value}) - one per path through __init__ + _create_client - of the
     call that creates an inner client.  Values: P(name) = the constructor parameter itself, Derived({names}) = computed
     from those parameters, Const, or something else."""
     cls = prog.cls(cname)
     init = prog.method(cls, "__init__")
-    cc = prog.method(cls, creator)
+    cc = prog.method(cls, creator) if creator is not None else (creator_method(prog, cname) or prog.method(cls, "_create_client"))
     dom = OptionsDomain(prog, init, cls)
     env = {p.name: P(p.name) for p in init.params if p.name != "self"}
     outs = Interp(dom, init.node, prog).run(Env(env))
@@ -441,6 +587,28 @@ class _CallbackDomain(Domain):
         return [("ok", TOP, st)]
 
 
+def _named_callback_calls(prog, cls, init):
+    """after_remove given as `self._method`, `Class.method` or a function: what it calls on the client it is handed."""
+    out = []
+    _, cons = pool_constructions(prog, cls.name)
+    for call, oc, ar in cons:
+        cb = resolve_callback(prog, cls, ar, init) if ar is not None else None
+        if cb is None or not cb.params:
+            return None
+        if cb.kind.startswith("unbound:"):
+            out.append((cb.kind.split(".")[-1],))  # `Client.close`: the callback is that method, applied to the client
+            continue
+        if cb.kind == "lambda":
+            return None  # (a lambda is followed as a value by the caller)
+        d2 = _CallbackDomain(prog, init)
+        outs = Interp(d2, cb.node, prog).run(Env({cb.params[0]: Opaque("removed-client")}))
+        for s_, v, t in outs.of("ret"):
+            out.append(tuple(s_.get("#cb", ())))
+        for s_, e, t in outs.of("exc"):
+            out.append(tuple(s_.get("#cb", ())) + ("<raises %s>" % (e.cls or "an exception"),))
+    return out
+
+
 def after_remove_calls(prog, cname="PooledClient"):
     """The methods the pool's after_remove callback calls on the removed client, per path; None if the callback is
     not a lambda / method this analysis can follow.  (The callback runs inside ObjectPool.get / destroy / clear, i.e.
@@ -468,7 +636,11 @@ def after_remove_calls(prog, cname="PooledClient"):
             from .paths import LambdaV
 
             if not isinstance(cb, LambdaV):
-                return None
+                res = _named_callback_calls(prog, cls, init)
+                if res is None:
+                    return None
+                found += res
+                continue
             d2 = _CallbackDomain(prog, init)
             res = d2.apply_lambda(cb.node, cb, [Opaque("removed-client")], {}, Env())
             if res is None:
